@@ -790,7 +790,7 @@ def c04(work, v, tier):
                     "equal Struct(t); the second Unmarshal must be deeply equal (labels case-insensitively) and IsEqual must succeed both ways when no fold is involved. "
                     "Random deeper trees are validated by Check_Codec.tla",
                     gens=[dict(module="Gen_Codec", family=f, fn="codec") for f in fams],
-                    rands=[dict(module="Check_Codec", fn="codec", n=3000 if q else 200000, depth=3 if q else 4)])
+                    rands=[dict(module="Check_Codec", fn="codec", n=3000 if q else 600000, depth=3 if q else 4)])
 
 
 @check("C16")
@@ -804,7 +804,7 @@ def c16(work, v, tier):
                     "nested envelopes) x both call forms x zero and initialised receivers; no panic, 'error or initialised receiver', String / Unmarshal / IsEqual usable "
                     "afterwards; for well-formed input the decoded structure and the gained element are compared exactly",
                     gens=[dict(module="Gen_Codec", family=f, fn="codec") for f in ["c16flat", "c16nest"]],
-                    rands=[dict(module="Check_Codec", fn="codec", n=3000 if q else 200000, depth=3 if q else 4, salt=5)])
+                    rands=[dict(module="Check_Codec", fn="codec", n=3000 if q else 600000, depth=3 if q else 4, salt=5)])
 
 
 @check("C05")
@@ -820,7 +820,7 @@ def c05(work, v, tier):
                     "unexported field between exported ones; as a Stack element, as a Condition expression and nested (alias / pointer forms). No panic allowed. "
                     "Random pairs with random mutations are validated by Check_Equal.tla",
                     gens=[dict(module="Gen_Equal", family=f, fn="equal") for f in ["flat", "incond", "nested"]],
-                    rands=[dict(module="Check_Equal", fn="equal", n=4000 if q else 300000, depth=2 if q else 3)])
+                    rands=[dict(module="Check_Equal", fn="equal", n=4000 if q else 800000, depth=2 if q else 3)])
 
 
 @check("C12")
@@ -1089,7 +1089,7 @@ def c11(work, v, tier):
         logf = work.path("cqrace_%s.log" % name)
         env = dict(os.environ, GORACE="halt_on_error=0 exitcode=0 history_size=3")
         with open(logf, "w") as lf:
-            p = subprocess.run([hr, "cqueries", "-rounds", str(60 if q else 600), "-g", str(12 if q else 16), "-seed", str(lib.seed() * 17 + salt), "-out", casef],
+            p = subprocess.run([hr, "cqueries", "-rounds", str(60 if q else 2000), "-g", str(12 if q else 16), "-seed", str(lib.seed() * 17 + salt), "-out", casef],
                                stdout=subprocess.PIPE, stderr=lf, text=True, env=env, timeout=3000)
         if p.returncode != 0:
             raise Infra("cqueries failed: " + open(logf).read()[-1500:])
